@@ -3,8 +3,13 @@
 package pfcpiface
 
 import (
+	"fmt"
+	"math/rand"
+	"net"
 	"sync"
+	"time"
 
+	"github.com/prometheus/client_golang/prometheus"
 	"github.com/wmnsk/go-pfcp/ie"
 	"github.com/wmnsk/go-pfcp/message"
 )
@@ -186,4 +191,178 @@ func R_C11_bess() {
 		}(g)
 	}
 	wg.Wait()
+}
+
+// vKeyedDP: a datapath shared by several associations whose downlink entries
+// are keyed by what both real plug-ins key them by - the UE address (the owner
+// is recorded as value). A delete removes whatever entry carries the key. Its
+// mutex makes every call one critical section.
+type vKeyedDP struct {
+	mu       sync.Mutex
+	downlink map[uint32]uint64 // UE address -> F-SEID that programmed it
+}
+
+func (d *vKeyedDP) Exit()                                 {}
+func (d *vKeyedDP) SetUpfInfo(u *upf, conf *Conf)         {}
+func (d *vKeyedDP) AddSliceInfo(s *SliceInfo) error       { return nil }
+func (d *vKeyedDP) SendEndMarkers(l *[][]byte) error      { return nil }
+func (d *vKeyedDP) IsConnected(accessIP *net.IP) bool     { return true }
+func (d *vKeyedDP) SummaryLatencyJitter(uc *upfCollector, ch chan<- prometheus.Metric) {}
+func (d *vKeyedDP) SummaryGtpuLatency(uc *upfCollector, ch chan<- prometheus.Metric)   {}
+func (d *vKeyedDP) PortStats(uc *upfCollector, ch chan<- prometheus.Metric)            {}
+func (d *vKeyedDP) SessionStats(pc *PfcpNodeCollector, ch chan<- prometheus.Metric) error {
+	return nil
+}
+func (d *vKeyedDP) SendMsgToUPF(method upfMsgType, all PacketForwardingRules, updated PacketForwardingRules) uint8 {
+	if vRacing && method == upfMsgTypeDel {
+		// the native concurrent run: a datapath call is a remote procedure call;
+		// give the delete the latency of one (widens the window another
+		// association's request can fall into - the engine needs no such help)
+		time.Sleep(2 * time.Millisecond)
+	}
+	d.mu.Lock()
+	defer d.mu.Unlock()
+	switch method {
+	case upfMsgTypeAdd:
+		for _, p := range all.pdrs {
+			if p.srcIface == core {
+				d.downlink[p.ueAddress] = p.fseID
+			}
+		}
+	case upfMsgTypeDel:
+		for _, p := range all.pdrs {
+			if p.srcIface == core {
+				delete(d.downlink, p.ueAddress)
+			}
+		}
+	}
+	return ie.CauseRequestAccepted
+}
+
+// vTwoAssociations: two PFCPConn objects of one node: shared UE pool (two
+// addresses), shared F-TEID generator, shared keyed datapath; distinct SEID
+// ranges.
+func vTwoAssociations() (*vEnv, *vEnv, *vKeyedDP) {
+	e1, e2 := vNewEnv(true), vNewEnv(true)
+	dp := &vKeyedDP{downlink: map[uint32]uint64{}}
+	pool, _ := NewIPPool("10.250.0.0/30")
+	for k, e := range []*vEnv{e1, e2} {
+		e.u.ippool, e.u.datapath, e.u.fteidGenerator = pool, dp, e1.u.fteidGenerator
+		e.pc.rng = rand.New(&vRandSource{counter: true, n: 1000 * k})
+		e.pc.maxRetries = 2
+	}
+	return e1, e2, dp
+}
+
+func vChooseEstablishment(seq uint32, cp uint64) message.Message {
+	pdrs, fars, qers := vConcreteRules()
+	pdrs[0].choose = true
+	pdrs[0].ueChoose, pdrs[1].ueChoose = true, true
+	return vEstablishment(seq, cp, "cp.test", pdrs, fars, qers)
+}
+
+// vUPSEID returns the UP F-SEID of an accepted establishment response (0 otherwise).
+func vUPSEID(m message.Message) uint64 {
+	r, ok := m.(*message.SessionEstablishmentResponse)
+	if !ok || r.UPFSEID == nil || vCauseOf(r.Cause) != ie.CauseRequestAccepted {
+		return 0
+	}
+	fs, err := r.UPFSEID.FSEID()
+	if err != nil {
+		return 0
+	}
+	return fs.SEID
+}
+
+// vOrderCheck: every session an association answered "accepted" and still
+// holds owns the downlink entry of its UE address.
+func vOrderCheck(dp *vKeyedDP, envs ...*vEnv) string {
+	for _, e := range envs {
+		for _, s := range e.pc.store.GetAllSessions() {
+			for _, p := range s.pdrs {
+				if p.srcIface == core {
+					if owner, ok := dp.downlink[p.ueAddress]; !ok || owner != s.localSEID {
+						return fmt.Sprintf("session %x: downlink entry for its UE address %x is owned by %x (present %v)", s.localSEID, p.ueAddress, owner, ok)
+					}
+				}
+			}
+		}
+	}
+	return ""
+}
+
+// H_C11_order: outcomes under interleaving. Association 1 holds session A with
+// a UPF-chosen UE address; the pool has one address left or none. Association 1
+// deletes A while association 2 establishes B (UPF-chosen address) - under every
+// interleaving of their critical sections. Afterwards every accepted, live
+// session owns its datapath entry and the pool is conserved: the result is one
+// that serving the two requests one after the other could have produced.
+func H_C11_order() {
+	e1, e2, dp := vTwoAssociations()
+	e1.vSend(vChooseEstablishment(1, 0xa1))
+	a := vUPSEID(e1.vLastReply())
+	vAssert("A-established", a != 0)
+	if vBool("pool-exhausted") {
+		// a third session takes the other address: B can only be served with A's
+		e1.vSend(vChooseEstablishment(2, 0xa2))
+		vAssert("C-established", vUPSEID(e1.vLastReply()) != 0)
+	}
+	vAssert("consistent-before", vOrderCheck(dp, e1, e2) == "")
+	vPreemptAtLocks(4)
+	vPreemptOn(&e1.u.ippool.mu)
+	vPreemptOn(&e1.u.fteidGenerator.lock)
+	vPreemptOn(&dp.mu)
+	var wg sync.WaitGroup
+	wg.Add(2)
+	go func() {
+		defer wg.Done()
+		e1.vSend(vDeletion(3, a))
+	}()
+	go func() {
+		defer wg.Done()
+		e2.vSend(vChooseEstablishment(1, 0xb1))
+	}()
+	wg.Wait()
+	vJoin()
+	_, del := e1.vLastReply().(*message.SessionDeletionResponse)
+	vAssert("deletion-answered", del)
+	vAssert("every-accepted-live-session-owns-its-datapath-entry", vOrderCheck(dp, e1, e2) == "")
+	held := len(e1.u.ippool.inventory)
+	live := len(e1.pc.store.GetAllSessions()) + len(e2.pc.store.GetAllSessions())
+	vAssert("addresses-held-equals-live-sessions", held == live)
+	vAssert("pool-conserved", held+len(e1.u.ippool.freePool) == 2)
+	vCover("order")
+}
+
+// R_C11_order: native counterpart of H_C11_order, many rounds.
+func R_C11_order() {
+	for round := 0; round < 400; round++ {
+		e1, e2, dp := vTwoAssociations()
+		e1.vSend(vChooseEstablishment(1, 0xa1))
+		a := vUPSEID(e1.vLastReply())
+		e1.vSend(vChooseEstablishment(2, 0xa2))
+		var start, wg sync.WaitGroup
+		start.Add(1)
+		wg.Add(2)
+		go func() {
+			defer wg.Done()
+			start.Wait()
+			e1.vSend(vDeletion(3, a))
+		}()
+		go func() {
+			defer wg.Done()
+			start.Wait()
+			for try := uint32(0); try < 50; try++ {
+				e2.vSend(vChooseEstablishment(1+try, 0xb1))
+				if vUPSEID(e2.vLastReply()) != 0 {
+					return
+				}
+			}
+		}()
+		start.Done()
+		wg.Wait()
+		if msg := vOrderCheck(dp, e1, e2); msg != "" {
+			vStressFail(fmt.Sprintf("round %d: %s", round, msg))
+		}
+	}
 }
